@@ -1,8 +1,11 @@
 import RV.Json
 import RV.Model.Custom
+import RV.Model.CustomHist
 import RV.Oracle.C15
+import RV.Oracle.C15Hist
 /-!
-  Driver for suite "custom" (C15).  Ops `seq` and `script`, see harness/suite_custom.go.
+  Driver for suite "custom" (C15).  Ops `seq`, `script` (harness/suite_custom.go) and `hist`
+  (harness/suite_custom_hist.go).
 -/
 namespace RV.Drv.Custom
 open Lean RV RV.Custom RV.Oracle.C15
@@ -311,6 +314,14 @@ def vsRuleTags (stable : String) (spec : J) : List String :=
       | _ => acc) []
   | _ => []
 
+/-- one verdict per key: the conjunction of all its checks (the reply is a JSON object — with
+    duplicate keys only the last check would survive). -/
+def mergeHolds (hs : List (String × Bool)) : List (String × Bool) :=
+  hs.foldl (fun acc (k, b) =>
+    match acc.find? (·.1 == k) with
+    | some _ => acc.map fun (k', b') => if k' == k then (k', b' && b) else (k', b')
+    | none => acc ++ [(k, b)]) []
+
 /-! ### ops -/
 
 def handleScript (inp impl : Json) : R OpResult := do
@@ -442,7 +453,209 @@ def handleSeq (inp impl : Json) : R OpResult := do
   holds := holds ++ [("C15.restore-idempotent", decide ((← resOfJson (← jget fin2 "res")) = .ok false) && (← fBool fin2 "same"))]
   if steps.length == 0 then tags := tags ++ ["trivial"]
   let _ := anyOk
-  return { model := if supported then model else .null, holds := holds, tags := tags.eraseDups }
+  return { model := if supported then model else .null, holds := mergeHolds holds, tags := tags.eraseDups }
+
+
+/-! ### op `hist`: provider calls interleaved with foreign events and API faults -/
+
+def budgetOfJson (j : Json) : R (Option Nat) := fOptNat j "fail"
+
+def freshHist (u : Option Script × Obj) (s : Strategy) : Json :=
+  match u.1 with
+  | some f =>
+    match f (dataOf u.2) s with
+    | some d => dataToJson d
+    | none => strJ "err"
+  | none => .null
+
+def freshOfJson (js : Json) : R (Option (List Data)) := do
+  let fresh ← (← fArr js "fresh").mapM fun f => match f with
+    | .str _ => pure none
+    | .null => pure none
+    | j => do pure (some (← dataOfJson j))
+  return fresh.mapM id
+
+def handleHist (inp impl : Json) : R OpResult := do
+  let stable ← fStr inp "stable"
+  let canary ← fStr inp "canary"
+  let events ← fArr inp "events"
+  let implEvents ← fArr impl "events"
+  if implEvents.length != events.length then
+    .error "hist: the implementation reports a different number of events"
+  -- model state, the user's last configurations (a function of the events alone), and per ref the
+  -- predicate "the script execution is inside the modelled shapes" (same list operations as `Users`)
+  let mut w : World := World.empty
+  let mut us : Users := Users.empty
+  let mut kindsA : List RefIn := []
+  let mut kindsP : List RefIn := []
+  let mut written : List ((Data → Strategy → Bool) × Obj) := []
+  let mut strategies : List Strategy := []
+  let mut out : List Json := []
+  let mut holds : List (String × Bool) := []
+  let mut tags : List String := [s!"events:{if events.length ≤ 4 then "1-4" else if events.length ≤ 8 then "5-8" else "9+"}"]
+  -- what happened so far (for the scenario tags)
+  let mut maxRefs := 0
+  let mut lastStepFailed := false
+  let mut lastFinFailed := false
+  let mut partialFin := false       -- a failed Finalise restored some refs and not others, no successful call since
+  let mut prevObjs : List (Option Obj) := []
+  let mut prevParked : List (Option Obj) := []
+  for (e, je) in events.zip implEvents do
+    let ev ← fStr e "ev"
+    let implObjs ← (← fArr je "objs").mapM optObjOfJson
+    let implParked ← (← fArr je "parked").mapM optObjOfJson
+    let implRes : Option Res ← match jopt je "res" with
+      | none => pure none
+      | some r => do pure (some (← resOfJson r))
+    let mut recJ : List (String × Json) := []
+    tags := tags ++ [s!"ev:{ev}"]
+    match ev with
+    | "add" =>
+      let r ← refOfJson stable canary (← jget e "ref")
+      let o ← match r.obj with
+        | some o => pure o
+        | none => .error "hist: add without object"
+      if !(noOrig o) then .error "hist: generator must supply manifests without the provider's annotation"
+      let evm := Event.addRef r.script o
+      w := (runEv codec evm w).1
+      us := usersEv evm us
+      kindsA := kindsA ++ [r]
+      written := written ++ [(r.supported, o)]
+      tags := tags ++ [s!"ref:{r.kind}"] ++ (if r.script.isNone then ["ref:no-script"] else [])
+               ++ [specTag o, mapTag "labels" o.labels, mapTag "annotations" o.annotations]
+      recJ := [("res", .null)]
+    | "write" =>
+      let i ← fNat e "i"
+      let o ← objOfJson (← jget e "obj")
+      if !(noOrig o) then .error "hist: generator must supply manifests without the provider's annotation"
+      -- scenario: the re-created object lacks the annotation while a sibling carries it
+      let siblings := (w.active.zipIdx.filter fun (r, k) => k != i && (match r.obj with
+        | some x => !noOrig x
+        | none => false)).length
+      let self := match getAt i w.active with
+        | some ⟨_, some x⟩ => !noOrig x
+        | _ => false
+      if self then tags := tags ++ ["write:over-annotated-object"]
+      if siblings > 0 && (getAt i w.active).isSome then tags := tags ++ ["write:while-siblings-annotated"]
+      let evm := Event.userWrite i o
+      w := (runEv codec evm w).1
+      us := usersEv evm us
+      match getAt i kindsA with
+      | some r => written := written ++ [(r.supported, o)]
+      | none => tags := tags ++ ["index:out-of-range"]
+      recJ := [("res", .null)]
+    | "delete" =>
+      let i ← fNat e "i"
+      w := (runEv codec (.delete i) w).1
+      recJ := [("res", .null)]
+    | "remove" =>
+      let i ← fNat e "i"
+      match getAt i w.active with
+      | some ⟨_, some x⟩ => if !noOrig x then tags := tags ++ ["remove:annotated-object"]
+      | _ => pure ()
+      w := (runEv codec (.removeRef i) w).1
+      us := usersEv (.removeRef i) us
+      match getAt i kindsA with
+      | some r => kindsA := removeAt i kindsA; kindsP := kindsP ++ [r]
+      | none => tags := tags ++ ["index:out-of-range"]
+      recJ := [("res", .null)]
+    | "readd" =>
+      let j ← fNat e "j"
+      match getAt j w.parked with
+      | some ⟨_, some x⟩ => if !noOrig x then tags := tags ++ ["readd:annotated-object"]
+      | _ => pure ()
+      w := (runEv codec (.readd j) w).1
+      us := usersEv (.readd j) us
+      match getAt j kindsP with
+      | some r => kindsP := removeAt j kindsP; kindsA := kindsA ++ [r]
+      | none => tags := tags ++ ["index:out-of-range"]
+      recJ := [("res", .null)]
+    | "step" =>
+      let b ← budgetOfJson e
+      let s ← strategyOfJson (← jget e "strategy")
+      strategies := strategies ++ [s]
+      if !(s.mts.all matchSupported) then .error "hist: generator must supply admissible match types"
+      let mixed := w.active.any (fun r => match r.obj with | some x => noOrig x | none => false)
+                    && w.active.any (fun r => match r.obj with | some x => !noOrig x | none => false)
+      let pre := w.active
+      let (st1, r1) := ensureRoutesF codec b s pre
+      recJ := [("res", resToJson r1)]
+      w := { w with active := st1 }
+      match r1 with
+      | .ok _ =>
+        -- the repeated call runs against an API server that refuses every write
+        let (st2, r2) := ensureRoutesF codec (some 0) s st1
+        recJ := recJ ++ [("res2", resToJson r2), ("same2", boolJ (decide (st2.map (·.obj) = st1.map (·.obj)))),
+                       ("fresh", arrJ (us.active.map fun u => freshHist u s))]
+        w := { w with active := st2 }
+      | .err => pure ()
+      -- tags
+      tags := tags ++ strategyTags s
+      if b.isSome then tags := tags ++ ["step:with-fault-budget"]
+      if mixed then tags := tags ++ ["step:some-refs-annotated-some-not"]
+      if w.active.any (·.obj.isNone) then tags := tags ++ ["step:object-missing"]
+      match implRes with
+      | some (.ok d) =>
+        tags := tags ++ [if d then "ensure:done" else "ensure:updated"]
+        if lastStepFailed then tags := tags ++ ["step:ok-after-failed-step"]
+        if partialFin then tags := tags ++ ["step:ok-after-partial-finalise"]
+        if mixed then tags := tags ++ ["step:ok-with-some-refs-annotated-some-not"]
+        lastStepFailed := false
+        partialFin := false
+      | _ =>
+        tags := tags ++ ["ensure:error"]
+        if b.isSome && r1 == .err && (ensureRoutesF codec none s pre).2 != .err then
+          tags := tags ++ ["step:failed-by-fault"]
+        lastStepFailed := true
+      -- oracles on the implementation's output
+      match implRes with
+      | some (.ok _) =>
+        let res2 ← resOfJson (← jget je "res2")
+        let same2 ← fBool je "same2"
+        holds := holds ++ [("C15.hist_idempotent", idemOK (.ok true) res2 same2)]
+        let ok := match ← freshOfJson je with
+          | some ds => statelessOK codec (us.active.map (·.2)) ds implObjs
+          | none => false
+        holds := holds ++ [("C15.hist_stateless", ok)]
+      | _ => pure ()
+      holds := holds ++ [("C15.hist_frame", decide (implParked = prevParked))]
+    | "fin" =>
+      let b ← budgetOfJson e
+      let annotatedBefore := (w.active.filter fun r => match r.obj with | some x => !noOrig x | none => false).length
+      let (st1, r1) := finaliseF codec b w.active
+      recJ := [("res", resToJson r1)]
+      w := { w with active := st1 }
+      if b.isSome then tags := tags ++ ["fin:with-fault-budget"]
+      match implRes with
+      | some (.ok m) =>
+        tags := tags ++ [if m then "finalise:modified" else "finalise:nothing-to-do"]
+        if lastFinFailed then tags := tags ++ ["fin:ok-after-failed-fin"]
+        lastFinFailed := false
+        partialFin := false
+        holds := holds ++ [("C15.hist_restore",
+          histRestoreOK (us.active.map (·.2)) prevObjs implObjs && decide (m = anyAnnotated prevObjs))]
+      | _ =>
+        tags := tags ++ ["finalise:error"]
+        lastFinFailed := true
+        let annotatedAfter := (st1.filter fun r => match r.obj with | some x => !noOrig x | none => false).length
+        if annotatedAfter < annotatedBefore then
+          partialFin := true
+          tags := tags ++ ["fin:failed-part-way"]
+      holds := holds ++ [("C15.hist_frame", decide (implParked = prevParked))]
+    | k => .error s!"hist: unknown event {k}"
+    if w.active.length > maxRefs then maxRefs := w.active.length
+    -- the invariant, on the implementation's objects, after every event
+    holds := holds ++ [("C15.hist_orig", origKeptOK codec (us.active.map (·.2)) implObjs
+                                          && origKeptOK codec (us.parked.map (·.2)) implParked)]
+    out := out ++ [mkObj (recJ ++ [("objs", objsJson w.active), ("parked", objsJson w.parked)])]
+    prevObjs := implObjs
+    prevParked := implParked
+  tags := tags ++ [s!"refs-max:{maxRefs}"]
+  let supported := written.all fun (sup, o) => strategies.all fun s => sup (dataOf o) s
+  tags := tags ++ [if supported then "shape:modelled" else "shape:unmodelled"]
+  if strategies.isEmpty then tags := tags ++ ["trivial"]
+  return { model := if supported then mkObj [("events", arrJ out)] else .null,
+           holds := mergeHolds holds, tags := tags.eraseDups }
 
 def handle : Handler := fun op inp impl => do
   match impl with
@@ -453,6 +666,7 @@ def handle : Handler := fun op inp impl => do
   match op with
   | "seq" => handleSeq inp impl
   | "script" => handleScript inp impl
+  | "hist" => handleHist inp impl
   | _ => .error s!"custom: unknown op {op}"
 
 end RV.Drv.Custom
